@@ -80,11 +80,10 @@ class Patches:
 
         indexing = self.base.indexing
 
+        # Number of voxels per patch: all touched voxels, i.e., ceil(num_voxels / num_patches).
+        # Use integer arithmetic; the quotient of the two metric lengths is not exact.
         patch_dimensions_voxels = [
-            self.base.coordinatesystem.num_voxels(
-                length=patch_dimensions_metric[i],
-                axis=darsia.to_cartesian_indexing(i, indexing),
-            )
+            -(-self.base.num_voxels[i] // self.num_patches[i])
             for i in range(self.num_active_spatial_axes)
         ]
 
